@@ -1,5 +1,5 @@
 (* C02 driver: one case per line  "<form> <n> <d>"  (decimal) -> result tokens in decimal.
-   A form name followed by "!fixed" selects the model of the body after the proposed repair. *)
+   "dom.quo!floor" is the body of IntegerDom::quo before frag/C02.fix-1.diff (documentation of the finding). *)
 let one f n d = string_of_z (f n d)
 let two f n d = let (a, b) = f n d in string_of_z a ^ " " ^ string_of_z b
 let bl f n d = if f n d then "1" else "0"
@@ -21,21 +21,19 @@ let table : (string * (Model.z -> Model.z -> string)) list = [
   "op/=.u", one Model.op_diveq_u; "op/=.i", one Model.op_diveq_i; "op/=.T", one Model.op_diveq_T; "op/=.Ts", one Model.op_diveq_T;
   "op/.I", one Model.op_div_I; "op/.ul", one Model.op_div_ul; "op/.l", one Model.op_div_l;
   "op/.u", one Model.op_div_u; "op/.i", one Model.op_div_i;
-  "divmod.I", two Model.divmod_I; "divmod.l", two Model.divmod_l; "divmod.l!fixed", two Model.divmod_l_fixed;
+  "divmod.I", two Model.divmod_I; "divmod.l", two Model.divmod_l;
   "divmod.ul", two Model.divmod_ul;
   "ceil.r", one Model.ceil_r; "floor.r", one Model.floor_r; "trunc.r", one Model.trunc_r;
   "ceil.v", one Model.ceil_v; "floor.v", one Model.floor_v; "trunc.v", one Model.trunc_v;
   "trem.I", one Model.trem_I; "crem.I", one Model.crem_I; "frem.I", one Model.frem_I;
   "trem.ul", one Model.trem_ul; "crem.ul", one Model.crem_ul; "frem.ul", one Model.frem_ul;
   "trem.w", one Model.trem_w; "crem.w", one Model.crem_w; "frem.w", one Model.frem_w;
-  "trem.w!fixed", one Model.trem_w_fixed; "crem.w!fixed", one Model.crem_w_fixed;
   "w/I.i", one Model.w_div_I; "w/I.l", one Model.w_div_I; "w/I.u", one Model.w_div_I; "w/I.ul", one Model.w_div_I;
   (* gmp++_int_mod.C *)
   "modin.I", one Model.modin_I; "modin.ul", one Model.modin_ul; "modin.l", one Model.modin_l;
   "mod.I", one Model.mod_I; "mod.l", one Model.mod_l; "mod.ul", one Model.mod_ul; "mod.i", one Model.mod_i; "mod.u", one Model.mod_u;
   "op%=.I", one Model.op_modeq_I; "op%=.ul", one Model.op_modeq_ul; "op%=.l", one Model.op_modeq_l;
-  "op%=.l!fixed", one Model.op_modeq_l_fixed;
-  "op%=.u", one Model.op_modeq_u; "op%=.i", one Model.op_modeq_i; "op%=.i!fixed", one Model.op_modeq_i_fixed;
+  "op%=.u", one Model.op_modeq_u; "op%=.i", one Model.op_modeq_i;
   "op%=.T", one Model.op_modeq_T; "op%=.Ts", one Model.op_modeq_T;
   "op%.I", one Model.op_mod_I; "op%.ul", one Model.op_mod_ul; "op%.l", one Model.op_mod_l;
   "op%.u", one Model.op_mod_u; "op%.i", one Model.op_mod_i; "op%.us", one Model.op_mod_us; "op%.d", one Model.op_mod_d; "op%.Ts", one Model.op_mod_Ts;
@@ -43,8 +41,8 @@ let table : (string * (Model.z -> Model.z -> string)) list = [
   (* givinteger.h *)
   "dom.div", one Model.dom_div; "dom.divin", one Model.dom_divin; "dom.mod", one Model.dom_mod; "dom.modin", one Model.dom_modin;
   "dom.divmod", two Model.dom_divmod; "dom.divexact", one Model.dom_divexact;
-  "dom.quo", one Model.dom_quo; "dom.quo!fixed", one Model.dom_quo_fixed; "dom.rem", one Model.dom_rem;
-  "dom.quoin", one Model.dom_quoin; "dom.quoin!fixed", one Model.dom_quoin_fixed; "dom.remin", one Model.dom_remin;
+  "dom.quo", one Model.dom_quo; "dom.quo!floor", one Model.dom_quo_floor; "dom.rem", one Model.dom_rem;
+  "dom.quoin", one Model.dom_quoin; "dom.remin", one Model.dom_remin;
   "dom.quoRem", two Model.dom_quoRem; "dom.isDivisor", bl Model.dom_isDivisor;
 ]
 let tbl = Hashtbl.create 200
